@@ -24,15 +24,55 @@ FULL = ("slice", ("const", None), ("const", None), ("const", None))
 KINDS = {"do_interventions": "d", "noise_interventions": "z", "shift_interventions": "s"}
 
 
+EMPTY_DICTS = (("dict", ()), ("ext", "dict", (), ()))
+
+
+def dictexpr(t):
+    """abstract intervention dict: list of kinds in override order (later overrides earlier), or None"""
+    if not isinstance(t, tuple):
+        return None
+    if t[0] == "param" and t[1] in KINDS:
+        return [KINDS[t[1]]]
+    if t[0] == "default":
+        return dictexpr(t[2])
+    if t in EMPTY_DICTS:
+        return []
+    if t[0] == "bool" and t[1] == "or" and len(t[2]) == 2 and t[2][1] in EMPTY_DICTS:
+        return dictexpr(t[2][0])
+    if t[0] == "ext" and t[1] in ("dict", "copy.copy", "copy.deepcopy") and len(t[2]) == 1 and not t[3]:
+        return dictexpr(t[2][0])
+    if t[0] == "method" and t[2] == "copy" and not t[3]:
+        return dictexpr(t[1])
+    if t[0] == "mut" and t[2] == "update" and len(t[3]) == 1:
+        a, b = dictexpr(t[1]), dictexpr(t[3][0])
+        return None if a is None or b is None else a + b
+    if t[0] == "binop" and t[1] == "|":
+        a, b = dictexpr(t[2]), dictexpr(t[3])
+        return None if a is None or b is None else a + b
+    if t[0] == "dict" and t[1] and all(k == ("const", "**") for k, _ in t[1]):
+        out = []
+        for _, v in t[1]:
+            d = dictexpr(v)
+            if d is None:
+                return None
+            out += d
+        return out
+    if t[0] == "phi":
+        a, b = dictexpr(t[2]), dictexpr(t[3])
+        if a is not None and a == b:
+            return a
+    return None
+
+
 def parsed(t):
-    """term is _parse_interventions(<param>) -> param name"""
-    if isinstance(t, tuple) and t[0] == "call" and t[1] == LG + "_parse_interventions" and len(t[2]) == 1 and t[2][0][0] == "param":
-        return t[2][0][1]
+    """term is _parse_interventions(<dict expression>) -> abstract dict"""
+    if isinstance(t, tuple) and t[0] == "call" and t[1] == LG + "_parse_interventions" and len(t[2]) == 1:
+        return dictexpr(t[2][0])
     return None
 
 
 def parsed_col(t):
-    """parse(x)[:, k] (optionally .astype(int) / np.int_) -> (x, k, is_int)"""
+    """parse(D)[:, k] (optionally .astype(int)) -> (D, k, is_int); also the key list of D as target column"""
     is_int = False
     if isinstance(t, tuple) and t[0] == "method" and t[2] == "astype" and t[3] and t[3][0] in (("extref", "int"), ("extref", "numpy.int64"), ("extref", "numpy.int_")):
         is_int = True
@@ -40,7 +80,16 @@ def parsed_col(t):
     if isinstance(t, tuple) and t[0] == "sub" and t[2][0] == "tuple" and len(t[2][1]) == 2 and t[2][1][0] == FULL and is_const(t[2][1][1]):
         x = parsed(t[1])
         if x is not None and isinstance(t[2][1][1][1], int):
-            return (x, t[2][1][1][1], is_int)
+            return (tuple(x), t[2][1][1][1], is_int)
+    # np.array(list(D.keys())) / list(D) : the targets of D themselves
+    u = t
+    while isinstance(u, tuple) and u[0] == "ext" and u[1] in ("numpy.array", "numpy.asarray", "list", "sorted", "numpy.fromiter") and u[2]:
+        u = u[2][0]
+    if isinstance(u, tuple) and u[0] == "method" and u[2] == "keys" and not u[3]:
+        u = u[1]
+    d = dictexpr(u) if u is not t or (isinstance(u, tuple) and u[0] == "param") else None
+    if d is not None and u is not t:
+        return (tuple(d), 0, True)
     return None
 
 
@@ -51,31 +100,39 @@ class Cases:
         self.facts, self.forks, self.col_tag = facts, forks, col_tag
         self.problems = []
 
-    def truth(self, cond):
-        """truthiness of an intervention argument"""
-        name = None
-        if cond[0] == "param":
-            name = cond[1]
-        elif cond[0] == "cmp" and cond[1] in ("is not", "!=") and cond[2][0] == "param" and is_const(cond[3], None):
-            name = cond[2][1]
-        elif cond[0] == "bool" and cond[1] == "and":
-            names = {self._name(c) for c in cond[2]}
-            if len(names) == 1:
-                name = names.pop()
-        elif cond[0] == "cmp" and cond[1] == ">" and cond[2][0] == "ext" and cond[2][1] == "len" and is_const(cond[3], 0) and cond[2][2][0][0] == "param":
-            name = cond[2][2][0][1]
-        if name not in KINDS:
-            raise Inconclusive("intervention block guarded by an unrecognised condition: %s" % fmt(cond)[:80])
-        k = KINDS[name]
-        return True if self.facts[k] else self.forks[k]
+    def member(self, D):
+        return any(self.facts[k] for k in D)
 
-    def _name(self, c):
-        if c[0] == "param":
-            return c[1]
-        if c[0] == "cmp" and c[2][0] == "param":
-            return c[2][1]
-        if c[0] == "cmp" and c[2][0] == "ext" and c[2][2] and c[2][2][0][0] == "param":
-            return c[2][2][0][1]
+    def kind(self, D):
+        """which intervention's parameters a target gets from the (possibly merged) dict"""
+        ks = [k for k in D if self.facts[k]]
+        return ks[-1] if ks else None
+
+    def truth(self, cond):
+        """truthiness of an intervention argument / merged dict"""
+        D = dictexpr(cond)
+        if D is None and cond[0] == "cmp" and cond[1] in ("is not", "!=") and is_const(cond[3], None):
+            D = dictexpr(cond[2])
+        if D is None and cond[0] == "cmp" and cond[1] in (">", "!=") and cond[2][0] == "ext" and cond[2][1] == "len" and is_const(cond[3], 0):
+            D = dictexpr(cond[2][2][0])
+        if D is None and cond[0] == "bool" and cond[1] == "and":
+            ds = [self._dict_of(c) for c in cond[2]]
+            if all(d is not None for d in ds) and len({tuple(d) for d in ds}) == 1:
+                D = ds[0]
+        if D is None:
+            raise Inconclusive("intervention block guarded by an unrecognised condition: %s" % fmt(cond)[:80])
+        if self.member(D):
+            return True
+        return any(self.forks[k] for k in D)
+
+    def _dict_of(self, c):
+        d = dictexpr(c)
+        if d is not None:
+            return d
+        if c[0] == "cmp" and is_const(c[3]):
+            if c[2][0] == "ext" and c[2][1] == "len" and c[2][2]:
+                return dictexpr(c[2][2][0])
+            return dictexpr(c[2])
         return None
 
     def ev(self, t, base_tag):
@@ -92,10 +149,14 @@ class Cases:
             if src is None:
                 raise Inconclusive("stored value is not a column of a parsed intervention: %s" % fmt(val)[:80])
             if src[0] != tgt[0]:
-                self.problems.append("targets of `%s` receive the parameters of `%s`" % (tgt[0], src[0]))
-            if not self.facts[KINDS[tgt[0]]]:
+                self.problems.append("targets of `%s` receive the parameters of `%s`" % ("+".join(tgt[0]), "+".join(src[0])))
+            if not self.member(tgt[0]):
                 return below
-            tag = KINDS[src[0]].upper() + {1: "M", 2: "V"}.get(src[1], "?%d" % src[1])
+            kd = self.kind(src[0])
+            if kd is None:
+                self.problems.append("a target of `%s` is assigned a row of `%s`, which has none for it" % ("+".join(tgt[0]), "+".join(src[0])))
+                return below
+            tag = kd.upper() + {1: "M", 2: "V"}.get(src[1], "?%d" % src[1])
             if aug == "+":
                 return tuple(sorted(below + (tag,)))
             if aug is None:
@@ -116,11 +177,13 @@ class Cases:
             if not is_const(val, 0) or aug is not None:
                 raise Inconclusive("W store of a non-zero value")
             if r == FULL and parsed_col(c) and parsed_col(c)[1] == 0:
-                x = parsed_col(c)[0]
-                return "cut" if self.facts[KINDS[x]] and x == "do_interventions" else ("cut:" + x if self.facts[KINDS[x]] else below)
+                D = parsed_col(c)[0]
+                if not self.member(D):
+                    return below
+                return "cut" if set(D) == {"d"} else "cut:" + "+".join(D)
             if c == FULL and parsed_col(r) and parsed_col(r)[1] == 0:
-                x = parsed_col(r)[0]
-                return "row-cut" if self.facts[KINDS[x]] else below
+                D = parsed_col(r)[0]
+                return "row-cut" if self.member(D) else below
             raise Inconclusive("W store with an unrecognised index %s" % fmt(idx)[:60])
         return "kept"
 
@@ -154,6 +217,23 @@ def oracle(d, s, z):
     return (("M0",), ("V0",), "kept")
 
 
+def source_attr(t):
+    """the self attribute whose *data* a working-copy term carries"""
+    b = base_of(t)
+    while isinstance(b, tuple) and b:
+        if b[0] == "self":
+            return b[1]
+        if b[0] == "method" and b[2] in ("copy", "astype"):
+            b = b[1]
+        elif b[0] == "ext" and b[1] in ("numpy.array", "numpy.copy", "numpy.asarray", "copy.deepcopy") and b[2]:
+            b = b[2][0]
+        elif b[0] == "binop" and b[1] in ("*", "+", "/") and any(is_const(x) for x in (b[2], b[3])):
+            b = b[3] if is_const(b[2]) else b[2]
+        else:
+            return None
+    return None
+
+
 def roots(term, attr):
     """maximal sub-terms that are the (possibly updated) working copy of self.<attr>"""
     out = []
@@ -161,15 +241,13 @@ def roots(term, attr):
     def rec(t):
         if not isinstance(t, tuple):
             return
-        if t and t[0] in ("phi", "store", "method", "self") and any(x == ("self", attr) for x in walk(t)) and \
-                (t[0] != "method" or t[2] in ("copy", "astype")):
+        if t and t[0] in ("phi", "store", "method", "self", "ext", "binop") and source_attr(t) == attr and \
+                (t[0] not in ("ext", "binop") or t[0] == "ext" and t[1] in ("numpy.array", "numpy.copy", "numpy.asarray", "copy.deepcopy")):
             if t not in out:
                 out.append(t)
             return
-        if t and t[0] == "ext" and t[1] in ("numpy.array", "numpy.copy", "numpy.asarray", "copy.deepcopy") and any(x == ("self", attr) for x in walk(t)):
-            if t not in out:
-                out.append(t)
-            return
+        if t and t[0] in ("phi", "store", "method") and source_attr(t) is not None:
+            return          # the working copy of another attribute: not part of this one's data
         for c in t:
             rec(c)
     rec(term)
@@ -295,13 +373,26 @@ def run(prog, rep, tier):
     rep.check("COPY.working", base_of(Wt) != ("self", "W"), fwhere(f, construct="working copy of self.W"), "works on a copy of self.W", "writes self.W itself")
     # ---- NONE: every parse is guarded by the truthiness of its own argument
     parses = [c for c in S.select("call", qname=f.qname) if c.target == LG + "_parse_interventions"]
+    kinds_seen = set()
     for c in parses:
         x = c.args[0]
-        guarded = any(pol is True and implies_not_none(cond, x) for cond, pol in c.path)
-        rep.check("NONE.guard", guarded and x[0] == "param", fwhere(f, c.node), "%s is parsed only when it is truthy (None / {} skip the block)" % fmt(x),
-                  "%s may reach .items() when it is None" % fmt(x))
-    rep.check("NONE.blocks", {c.args[0] for c in parses} == {("param", k) for k in KINDS}, fwhere(f),
-              "do, shift and noise interventions are each parsed", "not all three intervention kinds are parsed: %s" % sorted(fmt(c.args[0]) for c in parses))
+        D = dictexpr(x)
+        if D is None:
+            rep.unk("NONE.guard", fwhere(f, c.node), "parsed argument %s is not a recognised combination of the intervention dicts" % fmt(x)[:80])
+            continue
+        kinds_seen |= set(D)
+        # every raw parameter inside the parsed expression must be protected against None:
+        # either the block is guarded by its truthiness, or it appears as `param or {}`
+        raw = [p_ for p_ in walk(x) if isinstance(p_, tuple) and p_[0] == "param" and p_[1] in KINDS]
+        ok = True
+        for p_ in raw:
+            guarded = any(pol is True and implies_not_none(cond, p_) for cond, pol in c.path)
+            defaulted = any(isinstance(y, tuple) and y[0] == "bool" and y[1] == "or" and len(y[2]) == 2 and y[2][0] == p_ and y[2][1] in EMPTY_DICTS for y in walk(x))
+            ok = ok and (guarded or defaulted)
+        rep.check("NONE.guard", ok, fwhere(f, c.node), "%s is parsed only when it is truthy / defaulted to {} (None skips the block)" % fmt(x)[:60],
+                  "%s may reach .items() when it is None" % fmt(x)[:60])
+    rep.check("NONE.blocks", kinds_seen == set(KINDS.values()), fwhere(f),
+              "do, shift and noise interventions are each parsed", "not all three intervention kinds are parsed: %s" % sorted(kinds_seen))
     # ---- forwarding to the sampler / population switch
     rets = S.select("return", qname=f.qname)
     pop = [r for r in rets if r.value[0] == "new"]
@@ -360,6 +451,7 @@ def run(prog, rep, tier):
             why = "low=%s high=%s size=%s generator=%s" % (fmt(slots.get("low", ())), fmt(slots.get("high", ())), fmt(slots.get("size", ())), fmt(c.recv))
         rep.check("RANGE.uniform", ok, fwhere(fc, us[0].node if us else None), "self.%s <- rng.uniform(%s[0], %s[1], size=p) from default_rng(random_state)" % (name, name, name),
                   "range sampling of %s deviates: %s" % (name, why))
+    pattern_method(prog, rep, LG + "LGANM.sample", ["W"])
     rep.exhaustive = True      # the finite tables (pairs / valuations) are enumerated completely
     rep.require_count("FORMULA", 3)
     rep.require_count("DTYPE", 2)
